@@ -26,7 +26,7 @@ fn le32(b: &[u8]) -> u32 {
 }
 
 /// the peer: answers every request after `delay` ms; counts requests that arrive while one is still unanswered
-fn peer_loop(mut s: UnixStream, delay: i32, acks: Arc<AtomicBool>, overlaps: Arc<AtomicU64>, gpu: bool) {
+fn peer_loop(mut s: UnixStream, delay: i32, acks: Arc<AtomicBool>, overlaps: Arc<AtomicU64>, gpu: bool, frontend: bool) {
     loop {
         let mut h = [0u8; 12];
         if s.read_exact(&mut h).is_err() {
@@ -46,7 +46,8 @@ fn peer_loop(mut s: UnixStream, delay: i32, acks: Arc<AtomicBool>, overlaps: Arc
         } else {
             match code {
                 1 => Some(((1u64 << 30) | 1).to_le_bytes().to_vec()),         // GET_FEATURES
-                15 => Some((0x8u64 | 0x1).to_le_bytes().to_vec()),             // GET_PROTOCOL_FEATURES: REPLY_ACK | MQ
+                15 => Some((0x8u64 | 0x2 | 0x1).to_le_bytes().to_vec()),       // GET_PROTOCOL_FEATURES: REPLY_ACK | LOG_SHMFD | MQ
+                6 if frontend && body.len() == 16 => Some(body.clone()),                  // SET_LOG_BASE with a log region: answered with the region
                 17 => Some(64u64.to_le_bytes().to_vec()),                      // GET_QUEUE_NUM
                 11 => {
                     let idx = le32(&body[0..4]);
@@ -103,7 +104,8 @@ pub fn run(args: &[Val]) -> Val {
     let gpu = endpoint == "gpu";
     {
         let (acks, overlaps) = (acks.clone(), overlaps.clone());
-        std::thread::spawn(move || peer_loop(b, delay, acks, overlaps, gpu));
+        let frontend = endpoint == "frontend";
+        std::thread::spawn(move || peer_loop(b, delay, acks, overlaps, gpu, frontend));
     }
     let n = ops.len();
     let barrier = Arc::new(Barrier::new(n));
@@ -124,6 +126,13 @@ pub fn run(args: &[Val]) -> Val {
             }
             fe.set_hdr_flags(VhostUserHeaderFlag::NEED_REPLY);
             overlaps.store(0, Ordering::SeqCst);
+            // one descriptor for all SET_LOG_BASE calls, open for the whole run
+            let logfd = {
+                let e = vmm_sys_util::eventfd::EventFd::new(0).unwrap();
+                let fd = e.as_raw_fd();
+                std::mem::forget(e);
+                fd
+            };
             for (i, (op, arg)) in ops.iter().cloned().enumerate() {
                 let (mut f, bar, tx) = (fe.clone(), barrier.clone(), tx.clone());
                 std::thread::spawn(move || {
@@ -147,6 +156,11 @@ pub fn run(args: &[Val]) -> Val {
                             Ok(_) => "ok".to_string(),
                             Err(_) => "err".to_string(),
                         },
+                        // the only acknowledged-by-reply form of SET_LOG_BASE: LOG_SHMFD negotiated and a region given
+                        "set_log_base" => {
+                            let region = vhost::VhostUserDirtyLogRegion { mmap_size: 0x1000, mmap_offset: 0, mmap_handle: logfd };
+                            if f.set_log_base(0x4000 + arg, Some(region)).is_ok() { "ok".into() } else { "err".into() }
+                        }
                         _ => "unknown".to_string(),
                     };
                     if r1 != "ok" {
